@@ -12,6 +12,8 @@ ATTRS = ["fish", "meat", "milk", "greenhouse", "immediate_outdoor_crops", "new_s
          "scp", "cell_sugar", "seaweed"]
 OUT_KEYS = ["fish", "meat", "dairy", "greenhouse", "outdoor_crops", "stored_food", "methane_scp", "cellulosic_sugar",
             "seaweed"]
+PIN_TAGS = {"outdoor_crops": "cr", "stored_food": "sf", "meat": "meat", "methane_scp": "scp", "cellulosic_sugar": "cs",
+            "seaweed": "sw"}   # dictionary key -> tag of runutil.extract_lp_in (pins of the to_animals solve)
 HELPERS = ("fill_negatives_with_positives", "get_second_round_kcals_with_redistributed_meat",
            "calculate_human_consumption_for_min_needs", "increase_biofuels_then_feed", "consume",
            "assert_consumption_within_limits")
@@ -174,6 +176,14 @@ def capture_real(runs):
         rec["keys"] = list(out.keys())
         rec["out"] = {k: hx(out[k].kcals) for k in out}
         rec["units"] = sorted({out[k].kcals_units for k in out})
+        # the same dictionary / round-1 series in billion kcals per month, converted exactly as the optimiser side does
+        # (runutil.extract_lp_in), taken NOW, i.e. as the helper returned them
+        rec["out_bil"] = {k: hx(np.array(out[k].in_units_bil_kcals_thou_tons_thou_tons_per_month().kcals, dtype=float))
+                          for k in out}
+        rec["series_bil"] = {a: hx(np.array(getattr(ir, a + "_kcals_equivalent")
+                                            .in_units_bil_kcals_thou_tons_thou_tons_per_month().kcals, dtype=float))
+                             for a in ATTRS}
+        rec["bil_per_daily"] = hx(float(Food.conversions.population) * float(Food.conversions.days_in_month) / 1e9)
         cur["_min_obj"] = out
         cur.setdefault("minneeds", []).append(rec)
         return out
@@ -248,7 +258,7 @@ def capture_real(runs):
                                        "meat_monthly": hx(d.get("meat_monthly", [])),
                                        "meat_running": hx(d.get("meat_running", [])),
                                        "meat_total": hx(d.get("meat_total", 0.0)),
-                                       "pin_meat": hx(d.get("pin_meat", []))})
+                                       "pins": {k: hx(d.get("pin_" + t, [])) for k, t in PIN_TAGS.items()}})
                         rec["lp_meat"] = lp
                 rec["needs_ratio"] = float(needs)
             except BaseException as e:  # noqa
